@@ -112,9 +112,26 @@ BAD_BNODES = ["x y", "", "a:b", "x.", "?x"]
 VARS = ["x", "a", "v1", "?x", "??x", "x_1", "\u00fc", "$x", "http://e/a", "1"]
 
 
+def _tail(rng):
+    """endings that stress the quoting: runs of quotes, backslashes then quotes, quotes then backslashes"""
+    r = rng.random()
+    q, b = '"' * rng.randint(1, 8), "\\" * rng.randint(1, 4)
+    if r < 0.4:
+        return q
+    if r < 0.65:
+        return b + '"' * rng.randint(1, 4)
+    if r < 0.85:
+        return '"' * rng.randint(1, 4) + b
+    return q + rng.choice(["a", "\r", " "]) + '"' * rng.randint(1, 5)
+
+
 def _rand_lex(rng):
     n = rng.choice([0, 1, 1, 2, 2, 3, 4, 6, 9])
-    return "".join(rng.choice(ATOMS) for _ in range(n))
+    s = "".join(rng.choice(ATOMS) for _ in range(n))
+    if rng.random() < 0.18:
+        # multi-line (long-quoted) two times out of three
+        s = (rng.choice(["\n", "a\nb", "\n\n", "\r\n"]) if rng.random() < 0.67 else "") + s + _tail(rng)
+    return s
 
 
 def _gen_lit(rng):
@@ -138,8 +155,23 @@ def _gen_lit(rng):
     return {"k": "lit", "lex": rng.choice(RDF_LEX[name]), "dt": RDFNS + name, "lang": None, "nn": rng.random() < 0.4}
 
 
+def _gen_retyped(rng):
+    """a literal built from ANOTHER Literal: Literal(Literal(lex[, lang]), datatype=dt) — no lexical-to-value check
+    is made on this path for an invalid form (value None, ill_typed None), and the lexical form is kept as it is"""
+    name = rng.choice(list(LEX))
+    lex = rng.choice(LEX[name] + ["abc", "", "1", "01", "1.5", "true"]) if rng.random() < 0.85 else _rand_lex(rng)
+    dt = rng.choice([XSD + name, XSD + name, XSD + rng.choice(["integer", "double", "decimal", "unsignedByte"]),
+                     None, rng.choice(CUSTOM_DT)])
+    lang = rng.choice(LANGS) if rng.random() < 0.25 else None
+    if lang and dt and rng.random() < 0.4:
+        return {"k": "lit", "lex": lex, "dt": dt, "lang": lang, "nn": False, "re": "lang"}
+    return {"k": "lit", "lex": lex, "dt": dt, "lang": lang, "nn": False, "re": True}
+
+
 def _gen_term(rng):
     r = rng.random()
+    if r > 0.93:
+        return _gen_retyped(rng)
     if r < 0.16:
         p = rng.random()
         s = rng.choice(IRIS) if p < 0.86 else rng.choice(BAD_IRIS) if p < 0.95 else rng.choice(CTRL_IRIS)
@@ -249,6 +281,10 @@ def _picklers():
 
 def build(t):
     k = t["k"]
+    if k == "lit" and t.get("re") == "lang":   # a datatyped literal re-made into a language-tagged one
+        return Literal(Literal(t["lex"], datatype=t.get("dt"), normalize=False), lang=t.get("lang"))
+    if k == "lit" and t.get("re"):             # a plain / language-tagged literal re-typed
+        return Literal(Literal(t["lex"], lang=t.get("lang")), datatype=t.get("dt"))
     if k == "lit":
         return Literal(t["lex"], lang=t.get("lang"), datatype=t.get("dt"), normalize=False if t.get("nn") else None)
     return CLS[k](t["s"])
@@ -374,6 +410,8 @@ def run_impl(case):
         ts.append(t)
         k = tj["k"]
         stats["k_" + k] = stats.get("k_" + k, 0) + 1
+        if tj.get("re"):
+            stats["lit_retyped"] = stats.get("lit_retyped", 0) + 1
     live = [(i, t) for i, t in enumerate(ts) if t is not None]
     kinds = {i: BASEKIND[terms_j[i]["k"]] for i, _ in live}
     nontrivial = False
@@ -540,6 +578,8 @@ def run_impl(case):
             esc = any(c in s for c in "\"\\\n\r")
             stats["lit_needs_escape"] = stats.get("lit_needs_escape", 0) + int(esc)
             stats["lit_long_quoted"] = stats.get("lit_long_quoted", 0) + int("\n" in s)
+            stats["lit_long_ends_in_quote"] = stats.get("lit_long_ends_in_quote", 0) + int("\n" in s and s.endswith('"'))
+            stats["lit_long_ends_4plus_quotes"] = stats.get("lit_long_ends_4plus_quotes", 0) + int("\n" in s and s.endswith('""""'))
             nontrivial = nontrivial or esc
             dt = t.datatype
             stats["lit_recognised_dt"] = stats.get("lit_recognised_dt", 0) + int(dt is not None and dt in T._toPythonMapping)
@@ -673,6 +713,8 @@ def _exc_name(e):
 def _mk_modelled(tj):
     """the model constructs without lexical normalisation (a parameter): comparable when rdflib does not normalise"""
     dt = tj.get("dt")
+    if tj.get("re"):
+        return False    # Literal(Literal(...), datatype=...) is another constructor path
     return bool(tj.get("nn")) or dt is None or URIRef(dt) not in T._toPythonMapping
 
 
@@ -930,6 +972,16 @@ def TABLES():
         assert e[:4] == '"""\n' and e[-4:] == 'x"""', e
         if e[4:-4] != c:
             long_.append((c, e[4:-4]))
+    tails = ['"' * k for k in range(0, 9)]
+    tails += ["\\" * b + '"' * k for b in range(1, 4) for k in range(1, 5)]
+    tails += ['"' * k + "\\" * b for b in range(1, 3) for k in range(1, 5)]
+    tails += ['"""a"', '"""a""""', '\r"', '"\r', 'a"""\\"', '\\"""', '"\\"""']
+    long_tails = []
+    for tl in tails:
+        lex = "a\n" + tl
+        e = Literal(lex, normalize=False)._quote_encode()
+        assert e[:3] == '"""' and e[-3:] == '"""', e
+        long_tails.append((lex, e[3:-3]))
     spaces = "".join(chr(c) for c in range(0x110000) if chr(c).isspace())
     L = ["/- GENERATED by harness/c07.py TABLES() from the live rdflib modules — do not edit. -/",
          "namespace RV.C07.Tables", "",
@@ -954,6 +1006,8 @@ def TABLES():
          "    in a short-quoted and in a long-quoted string (not in final position) -/",
          "def probed : List Char := " + _lchars("".join(probe)),
          "def shortEscapes : List (Char × List Char) := [" + ", ".join("(Char.ofNat %d, %s)" % (ord(c), _lchars(e)) for c, e in short) + "]",
+         "/-- long-quoted texts with endings that stress the final-quote rule, probed through `_quote_encode` -/",
+         "def longTails : List (List Char × List Char) := [" + ", ".join("(%s, %s)" % (_lchars(a), _lchars(b)) for a, b in long_tails) + "]",
          "def longEscapes : List (Char × List Char) := [" + ", ".join("(Char.ofNat %d, %s)" % (ord(c), _lchars(e)) for c, e in long_) + "]", "",
          "end RV.C07.Tables", ""]
     return "\n".join(L)
